@@ -1,4 +1,4 @@
-\* quick: 2 nodes, 2 entries, 1 restart, 1 snapshot sync
+\* quick: 2 nodes, 2 entries, 1 restart, 1 snapshot sync, <=2 leadership changes, endpoint up
 SPECIFICATION Spec
 CONSTANTS
   Node = {n1, n2}
@@ -7,11 +7,11 @@ CONSTANTS
   BatchSz = 2
   InCap = 0
   AsyncHWM = FALSE
-  MaxFlips = 99
+  MaxFlips = 2
   MaxLeaders = 1
   MaxRestarts = 1
   MaxSnaps = 1
-  MaxDowns = 99
+  MaxDowns = 0
   OneGroupPerEntry = TRUE
   LabelEveryGroup = TRUE
   KeyByHighest = TRUE
